@@ -450,6 +450,51 @@ theorem rebuild_insert (d : List (AnyTier Int)) (hnd : (C12.namesOf d).Nodup) (u
   · simp [h]
   · simp [h]
 
+/-- the `except` block (L538-546), started in the state `removeTier` left (nothing else written since): it puts the old tier
+back under its key AND at its old position — the textgrid is as before the call — and re-raises -/
+theorem exec_replaceRestore (g : Tg Int) (hnd : g.names.Nodup) (n : String) (k : Nat) (old : AnyTier Int) (e : Err)
+    (hk : C12.idxOf g.tiers n = some k) (hold : g.tiers.find? (·.name == n) = some old) :
+    exec (replaceRestore old (k : Int) e) ⟨C12.dropName g.tiers n, g.lo, g.hi⟩ = (.error e, g) := by
+  have hnd1 : (C12.namesOf (C12.dropName g.tiers n)).Nodup := C12.nodup_dropName n hnd
+  have holdn : old.name = n := (C12.find_name hold).2
+  have hfr : old.name ∉ C12.namesOf (C12.dropName g.tiers n) := by
+    rw [holdn]; intro hm; have := (C12.mem_names_dropName.1 hm); simp at this
+  unfold replaceRestore
+  simp only [exec_bind, exec_modify, exec_get, dictSet_fresh hfr]
+  have hnames : Tg.names ⟨C12.dropName g.tiers n ++ [old], g.lo, g.hi⟩ = C12.namesOf (C12.dropName g.tiers n) ++ [old.name] := by
+    simp [Tg.names, C12.namesOf]
+  rw [hnames]
+  simp only [List.getLast?_append, List.getLast?_singleton, Option.some_or, List.dropLast_concat]
+  have hback : pyListInsert (C12.dropName g.tiers n) (k : Int) old = g.tiers := by
+    rw [C12.insert_dropName old hnd hk, C12.subst_eq_set old hnd hk]
+    have hg : g.tiers[k]? = some old := by rw [← C12.find_eq_getElem hk]; exact hold
+    obtain ⟨hlt, hge⟩ := List.getElem?_eq_some_iff.1 hg
+    rw [← hge]; exact List.set_getElem_self hlt
+  simp only [exec_bind, exec_pure, exec_liftE, rebuild_insert _ hnd1 old hfr, exec_modify, exec_throw, hback]
+
+/-- `replaceTier` around ANY add-call that (i) leaves the state alone when it raises and (ii) raises praatio errors only:
+the outcome is the add-call's, and a raise leaves the textgrid as it was before `replaceTier` -/
+theorem exec_replaceTierCore (g : Tg Int) (hnd : g.names.Nodup) (n : String) (addCall : Int → M (Tg Int) Unit)
+    (k : Nat) (hk : C12.idxOf g.tiers n = some k)
+    (hfail : ∀ e s', exec (addCall (k : Int)) ⟨C12.dropName g.tiers n, g.lo, g.hi⟩ = (.error e, s') →
+      s' = ⟨C12.dropName g.tiers n, g.lo, g.hi⟩ ∧ e.isPraatio = true) :
+    exec (replaceTierCore n addCall) g = match exec (addCall (k : Int)) ⟨C12.dropName g.tiers n, g.lo, g.hi⟩ with
+      | (.ok _, s') => (.ok (), s')
+      | (.error e, _) => (.error e, g) := by
+  have hmem : n ∈ C12.namesOf g.tiers := (C12.idxOf_isSome_iff _ _).1 ⟨k, hk⟩
+  obtain ⟨old, hold⟩ := find_isSome_of_mem hmem
+  unfold replaceTierCore
+  simp only [exec_bind, exec_get, indexOf_eq, hk, exec_pure, exec_removeTier_raw, hold, exec_tryCatch]
+  cases ha : exec (addCall (k : Int)) ⟨C12.dropName g.tiers n, g.lo, g.hi⟩ with
+  | mk r s' =>
+    cases r with
+    | ok _ => rfl
+    | error e =>
+      obtain ⟨hs, hp⟩ := hfail e s' ha
+      subst hs
+      simp only [hp, if_true]
+      exact exec_replaceRestore g hnd n k old e hk hold
+
 /-- **refinement + atomicity, Textgrid.replaceTier**: same outcome as `Tg.replaceTier`; when `addTier` raises, the
 `except` block (L538-546) puts the old tier back under its key AND at its old position: the textgrid is as before -/
 theorem exec_replaceTier (g : Tg Int) (hnd : g.names.Nodup) (n : String) (t : AnyTier Int) (rep : Report) :
@@ -457,40 +502,32 @@ theorem exec_replaceTier (g : Tg Int) (hnd : g.names.Nodup) (n : String) (t : An
       | .ok g' => (.ok (), g')
       | .error e => (.error e, g) := by
   unfold replaceTier Tg.replaceTier
-  simp only [exec_bind, exec_get, indexOf_eq]
+  simp only [indexOf_eq]
   cases hk : C12.idxOf g.tiers n with
-  | none => rfl
+  | none =>
+    unfold replaceTierCore
+    simp only [exec_bind, exec_get, indexOf_eq, hk, exec_throw]
   | some k =>
-    have hmem : n ∈ C12.namesOf g.tiers := (C12.idxOf_isSome_iff _ _).1 ⟨k, hk⟩
-    obtain ⟨old, hold⟩ := find_isSome_of_mem hmem
+    have hmem : n ∈ g.names := (C12.idxOf_isSome_iff _ _).1 ⟨k, hk⟩
     have hnd1 : (C12.namesOf (C12.dropName g.tiers n)).Nodup := C12.nodup_dropName n hnd
-    have hmem' : n ∈ g.names := hmem
-    rw [C12.removeTier_eq, if_pos hmem']
-    simp only [exec_bind, exec_pure, exec_removeTier_raw, hold, exec_tryCatch]
-    rw [exec_addTier ⟨C12.dropName g.tiers n, g.lo, g.hi⟩ hnd1]
-    show _ = match Tg.addTier ⟨C12.dropName g.tiers n, g.lo, g.hi⟩ t (some (k : Int)) rep with
-      | .ok g' => (Except.ok (), g')
-      | .error e => (.error e, g)
-    cases ha : (Tg.addTier ⟨C12.dropName g.tiers n, g.lo, g.hi⟩ t (some (k : Int)) rep) with
-    | ok g' => rfl
-    | error e =>
-      simp only []
-      have hp : e.isPraatio = true := by
-        rcases C13.addTier_fails_before_mutation _ t _ rep e ha with ⟨_, rfl⟩ | ⟨_, _, rfl⟩ <;> rfl
-      have holdn : old.name = n := (C12.find_name hold).2
-      have hfr : old.name ∉ C12.namesOf (C12.dropName g.tiers n) := by
-        rw [holdn]; intro hm; have := (C12.mem_names_dropName.1 hm); simp at this
-      simp only [hp, if_true, exec_bind, exec_bind', exec_modify, exec_get, dictSet_fresh hfr]
-      have hnames : Tg.names ⟨C12.dropName g.tiers n ++ [old], g.lo, g.hi⟩ = C12.namesOf (C12.dropName g.tiers n) ++ [old.name] := by
-        simp [Tg.names, C12.namesOf]
-      rw [hnames]
-      simp only [List.getLast?_append, List.getLast?_singleton, Option.some_or, List.dropLast_concat]
-      have hback : pyListInsert (C12.dropName g.tiers n) (k : Int) old = g.tiers := by
-        rw [C12.insert_dropName old hnd hk, C12.subst_eq_set old hnd hk]
-        have hg : g.tiers[k]? = some old := by rw [← C12.find_eq_getElem hk]; exact hold
-        obtain ⟨hlt, hge⟩ := List.getElem?_eq_some_iff.1 hg
-        rw [← hge]; exact List.set_getElem_self hlt
-      simp only [exec_bind, exec_pure, exec_liftE, rebuild_insert _ hnd1 old hfr, exec_modify, exec_throw, hback]
+    have hadd := exec_addTier ⟨C12.dropName g.tiers n, g.lo, g.hi⟩ hnd1 t (some (k : Int)) rep
+    rw [exec_replaceTierCore g hnd n _ k hk]
+    · rw [C12.removeTier_eq, if_pos hmem]
+      simp only [hadd]
+      show _ = match Tg.addTier ⟨C12.dropName g.tiers n, g.lo, g.hi⟩ t (some (k : Int)) rep with
+        | .ok g' => (Except.ok (), g')
+        | .error e => (.error e, g)
+      cases Tg.addTier ⟨C12.dropName g.tiers n, g.lo, g.hi⟩ t (some (k : Int)) rep <;> rfl
+    · intro e s' h
+      simp only [hadd] at h
+      cases ha : Tg.addTier ⟨C12.dropName g.tiers n, g.lo, g.hi⟩ t (some (k : Int)) rep with
+      | ok g' => rw [ha] at h; simp at h
+      | error e' =>
+        rw [ha] at h
+        simp only [Prod.mk.injEq, Except.error.injEq] at h
+        obtain ⟨rfl, rfl⟩ := h
+        refine ⟨rfl, ?_⟩
+        rcases C13.addTier_fails_before_mutation _ t _ rep e' ha with ⟨_, rfl⟩ | ⟨_, _, rfl⟩ <;> rfl
 
 /-- (a) for `Textgrid.replaceTier` -/
 theorem replaceTier_atomic (g : Tg Int) (hnd : g.names.Nodup) (n : String) (t : AnyTier Int) (rep : Report)
@@ -671,6 +708,101 @@ theorem pinsertEntry_atomic (t : PTier Int) (x : Pt Int) (mode : InsMode) (rep :
   cases h2 : t.insertEntry x mode <;> rw [h2] at h <;> simp at h
   exact h.2.symm
 
+
+/-! ## from the first statement: `validateOption` (an invalid option value is one of the failure causes C13 names) -/
+
+@[simp] theorem exec_validateOption_some {δ : Type} (x : δ) (s : σ) : exec (validateOption (some x) : M σ δ) s = (.ok x, s) := rfl
+@[simp] theorem exec_validateOption_none {δ : Type} (s : σ) : exec (validateOption (none : Option δ) : M σ δ) s = (.error .WrongOption, s) := rfl
+
+/-- with valid option values the `…Py` entry points ARE the mutators above; with an invalid one they raise WrongOption at once -/
+theorem exec_iinsertEntryPy (t : ITier Int) (x : Iv Int) (mode? : Option InsMode) (rep? : Option Report) :
+    exec (iinsertEntryPy x mode? rep?) t = match mode?, rep? with
+      | some m, some r => exec (iinsertEntry x m r) t
+      | _, _ => (.error .WrongOption, t) := by
+  unfold iinsertEntryPy
+  cases mode? <;> cases rep? <;> simp [exec_bind]
+
+theorem exec_pinsertEntryPy (t : PTier Int) (x : Pt Int) (mode? : Option InsMode) (rep? : Option Report) :
+    exec (pinsertEntryPy x mode? rep?) t = match mode?, rep? with
+      | some m, some r => exec (pinsertEntry x m r) t
+      | _, _ => (.error .WrongOption, t) := by
+  unfold pinsertEntryPy
+  cases mode? <;> cases rep? <;> simp [exec_bind]
+
+theorem exec_addTierPy (g : Tg Int) (t : AnyTier Int) (idx : Option Int) (rep? : Option Report) :
+    exec (addTierPy t idx rep?) g = match rep? with
+      | some r => exec (addTier t idx r) g
+      | none => (.error .WrongOption, g) := by
+  unfold addTierPy
+  cases rep? <;> simp [exec_bind]
+
+/-- (a) `IntervalTier.insertEntry`, every option value (valid or not) except collisionReportingMode='error' -/
+theorem iinsertEntryPy_atomic (t : ITier Int) (hwf : t.WF) (x : Iv Int) (mode? : Option InsMode) (rep? : Option Report)
+    (hrep : rep? ≠ some .error) (e : Err) (t' : ITier Int) (h : exec (iinsertEntryPy x mode? rep?) t = (.error e, t')) : t' = t := by
+  rw [exec_iinsertEntryPy] at h
+  cases mode? with
+  | none => simp at h; exact h.2.symm
+  | some m =>
+    cases rep? with
+    | none => simp at h; exact h.2.symm
+    | some r => exact iinsertEntry_atomic t hwf x m r (fun hr => hrep (by rw [hr])) e t' h
+
+/-- (a) `PointTier.insertEntry`, every option value except collisionReportingMode='error' -/
+theorem pinsertEntryPy_atomic (t : PTier Int) (x : Pt Int) (mode? : Option InsMode) (rep? : Option Report)
+    (hrep : rep? ≠ some .error) (e : Err) (t' : PTier Int) (h : exec (pinsertEntryPy x mode? rep?) t = (.error e, t')) : t' = t := by
+  rw [exec_pinsertEntryPy] at h
+  cases mode? with
+  | none => simp at h; exact h.2.symm
+  | some m =>
+    cases rep? with
+    | none => simp at h; exact h.2.symm
+    | some r => exact pinsertEntry_atomic t x m r (fun hr => hrep (by rw [hr])) e t' h
+
+/-- (a) `Textgrid.addTier`, every reportingMode value -/
+theorem addTierPy_atomic (g : Tg Int) (hnd : g.names.Nodup) (t : AnyTier Int) (idx : Option Int) (rep? : Option Report)
+    (e : Err) (g' : Tg Int) (h : exec (addTierPy t idx rep?) g = (.error e, g')) : g' = g := by
+  rw [exec_addTierPy] at h
+  cases rep? with
+  | none => simp at h; exact h.2.symm
+  | some r => exact addTier_atomic g hnd t idx r e g' h
+
+/-- (a) `Textgrid.replaceTier`, every reportingMode value: an INVALID one is noticed by `addTier` inside the `try`, after the
+old tier has been removed (L535) — the textgrid is whole again only because WrongOption is a PraatioException and the `except`
+block restores it -/
+theorem replaceTierPy_atomic (g : Tg Int) (hnd : g.names.Nodup) (n : String) (t : AnyTier Int) (rep? : Option Report)
+    (e : Err) (g' : Tg Int) (h : exec (replaceTierPy n t rep?) g = (.error e, g')) : g' = g := by
+  cases rep? with
+  | some r => exact replaceTier_atomic g hnd n t r e g' h
+  | none =>
+    unfold replaceTierPy at h
+    cases hk : C12.idxOf g.tiers n with
+    | none =>
+      unfold replaceTierCore at h
+      simp only [exec_bind, exec_get, indexOf_eq, hk, exec_throw, Prod.mk.injEq] at h
+      exact h.2.symm
+    | some k =>
+      rw [exec_replaceTierCore g hnd n _ k hk (by
+        intro e s' h'
+        rw [exec_addTierPy] at h'
+        simp only [Prod.mk.injEq, Except.error.injEq] at h'
+        obtain ⟨rfl, rfl⟩ := h'
+        exact ⟨rfl, rfl⟩)] at h
+      rw [exec_addTierPy] at h
+      simp only [Prod.mk.injEq] at h
+      exact h.2.symm
+
+/-- the invalid option on `replaceTier` of a present name: WrongOption, and the rollback has run -/
+theorem exec_replaceTierPy_invalid (g : Tg Int) (hnd : g.names.Nodup) (n : String) (t : AnyTier Int) (hn : n ∈ g.names) :
+    exec (replaceTierPy n t none) g = (.error .WrongOption, g) := by
+  obtain ⟨k, hk⟩ := (C12.idxOf_isSome_iff _ _).2 hn
+  unfold replaceTierPy
+  rw [exec_replaceTierCore g hnd n _ k hk (by
+    intro e s' h'
+    rw [exec_addTierPy] at h'
+    simp only [Prod.mk.injEq, Except.error.injEq] at h'
+    obtain ⟨rfl, rfl⟩ := h'
+    exact ⟨rfl, rfl⟩)]
+  rw [exec_addTierPy]
 
 /-! ## all mutators at once: the operations of C11 / C12 run at statement level -/
 
@@ -855,6 +987,10 @@ def exBad : Tg Int := ⟨[.I ⟨"a", [⟨1, 3, "x"⟩, ⟨2, 4, "y"⟩], 0, 5⟩
 -- addTier with a bad index (7 > len, -9 < -len) is `list.insert`: clamped, never an IndexError
 #guard (exec (addTier (.I exWide) (some 7) .silence) exG).2.names = ["a", "p", "b", "c"]
 #guard (exec (addTier (.I exWide) (some (-9)) .silence) exG).2.names = ["c", "a", "p", "b"]
+-- an invalid reportingMode on replaceTier is noticed by addTier INSIDE the try, after the removal: WrongOption, rolled back
+#guard raised (exec (replaceTierPy "a" (.I exWide) none) exG).1 = some .WrongOption
+#guard snapG (exec (replaceTierPy "a" (.I exWide) none) exG).2 = snapG exG
+#guard raised (exec (iinsertEntryPy ⟨1, 7, "n"⟩ none (some .silence)) exT).1 = some .WrongOption
 -- the seeded variants on the same inputs
 #guard snapI (exec (iinsertEntry_mutF ⟨1, 7, "n"⟩ .error .silence) exT).2 = ("a", [⟨1, 2, "x"⟩, ⟨3, 4, "y"⟩], 0, 7)
 #guard snapI (exec (iinsertEntry_mutF ⟨1, 7, " n "⟩ .merge .warning) exT).2 = snapI (exec (iinsertEntry ⟨1, 7, " n "⟩ .merge .warning) exT).2
